@@ -1,6 +1,8 @@
 """C04 (generated machines): RoProps/C04gen proves every machine regenerated from the Go source
 (lean/RoGen/OpsGen.lean, written by go/extract/opgen.go on every run) EQUAL to the hand-written
-machine the C04 theorems are about.
+machine the C04 theorems are about — or, where the Go code's own state encoding differs from the
+hand-written one (ring buffer, counters, zero values, floats), to SIMULATE it (Machine.Sim: same
+trace, drops and steps for every raw script).
 
 Nothing dynamic is needed on the unchanged tree (the equalities are theorems). When
 `lake build RoProps.C04gen` fails, `parts(ctx)` supplies the search that says WHICH operator's
@@ -25,9 +27,9 @@ LEAN_MODULES = ['C04gen']
 
 MANIFEST = dict(
     text="Every single-source template operator is re-translated from its Go source into a Lean Machine on every run (go/extract/opgen.go -> RoGen/OpsGen.lean) "
-         "and proved EQUAL, for all parameters, to the hand-written machine that the C04 specification theorems are about; operators outside the translated fragment "
+         "and proved EQUAL, for all parameters, to the hand-written machine that the C04 specification theorems are about (or, where the state encodings differ, proved to simulate it: same trace, drops, steps for every script); operators outside the translated fragment "
          "are listed (RoGen.Ops.skipped) and the list is checked. A changed operator breaks its equality at lake build and is named; the correspondence run supplies the input.",
-    technique="program translation (Go AST -> Lean definitions) + kernel-checked equality with the hand-written model",
+    technique="program translation (Go AST -> Lean definitions) + kernel-checked equality / simulation with the hand-written model",
     ref='5/C04')
 
 GEN = os.path.join(R.LEAN, 'RoGen', 'OpsGen.lean')
@@ -101,7 +103,7 @@ def search(ctx, out):
         return False      # nothing regenerated differs: not ours (hand-written Lean edited, stale snapshot …)
     errs = sorted(set(re.findall(r'error: (\S*C04gen\.lean:\d+:\d+)', out)))
     for op, why, diff in ch[:4]:
-        head = (f'# the machine regenerated from the Go source of `{op}` is no longer the hand-written machine the C04 theorems are about\n'
+        head = (f'# the machine regenerated from the Go source of `{op}` is no longer equal to (or a refinement of) the hand-written machine the C04 theorems are about\n'
                 f'# (lake build RoProps.C04gen fails: {", ".join(errs) or "see evidence notes"})\n'
                 f'# operator: {op} — {why}\n# changed lines of lean/RoGen/OpsGen.lean (snapshot -> regenerated):\n' + '\n'.join('#   ' + l for l in diff) + '\n')
         before = len(ctx.violations)
@@ -134,7 +136,7 @@ def parts(ctx):
         # the text changed but every equality still checks: a harmless rewrite; refresh the snapshot off-line
         ctx.notes.append('OpsGen.lean differs from its snapshot for ' + ', '.join(o for o, _, _ in ch) + ' but all equalities still hold (run tools/opgen_snapshot.py)')
     blocks = parse_gen(open(GEN).read())[0] if os.path.exists(GEN) else {}
-    return dict(rule_part=f'{len(blocks)} operator machines regenerated from the Go source and proved equal to the hand-written machines (all parameters); '
+    return dict(rule_part=f'{len(blocks)} operator machines regenerated from the Go source and proved equal to / simulating the hand-written machines (all parameters, all scripts); '
                           'on a failed equality: snapshot diff names the operator, kind=ops -only <operator> searches a failing input',
                 search=search)
 
